@@ -30,6 +30,7 @@ import (
 
 	"github.com/henrylee2cn/erpc/v6"
 	"github.com/henrylee2cn/erpc/v6/codec"
+	"github.com/henrylee2cn/erpc/v6/socket"
 	"github.com/henrylee2cn/erpc/v6/utils"
 	"github.com/henrylee2cn/erpc/v6/xfer"
 	"github.com/henrylee2cn/erpc/v6/xfer/gzip"
@@ -398,6 +399,10 @@ func (h *httproto) unpack(m erpc.Message, bb *utils.ByteBuffer) (size int, msg [
 	if bodySize <= 0 {
 		return size, msg, nil
 	}
+	// refuse an oversized message before buffering its body
+	if uint64(size) > uint64(erpc.GetReadLimit()) {
+		return 0, nil, socket.ErrExceedMessageSizeLimit
+	}
 	bb.ChangeLen(bodySize)
 	_, err = io.ReadFull(h.rw, bb.B)
 	if err != nil {
@@ -419,6 +424,9 @@ func (h *httproto) readLine(bb *utils.ByteBuffer) error {
 		_, err = io.ReadFull(h.rw, oneByte)
 		if err != nil {
 			return err
+		}
+		if uint64(bb.Len()) > uint64(erpc.GetReadLimit()) {
+			return socket.ErrExceedMessageSizeLimit
 		}
 		if oneByte[0] == '\n' {
 			n := bb.Len()
